@@ -77,8 +77,8 @@ theorem localStep_pid (k : Kind) (s : Nat) (q : Proc) (a : Act) : (localStep k s
   · split
     · rfl
     · split
-      · split <;> rfl
       · rfl
+      · split <;> rfl
   · split
     · rfl
     · split <;> rfl
@@ -96,10 +96,10 @@ theorem localStep_inv1 (k : Kind) (s : Nat) (q : Proc) (a : Act) (h : Inv1 q) : 
   · split
     · exact h
     · split
-      · split
-        · exact h
-        · intro c hc; simp at hc
       · exact h
+      · split
+        · intro c hc; simp at hc
+        · exact h
   · split
     · exact h
     · split
@@ -120,8 +120,8 @@ theorem localStep_returned (k : Kind) (s : Nat) (q : Proc) (a : Act) (h : Inv1 q
   · split
     · simp
     · split
-      · split <;> simp
       · simp
+      · split <;> simp
   · split
     · simp
     · split <;> simp
@@ -139,8 +139,8 @@ theorem localStep_noattr (k : Kind) (s : Nat) (q : Proc) (a : Act) (h : Inv1 q) 
   · split
     · rfl
     · split
-      · split <;> rfl
       · rfl
+      · split <;> rfl
   · split
     · rfl
     · split <;> rfl
@@ -200,10 +200,10 @@ theorem localStep_inv2 (k : Kind) (s : Nat) (q : Proc) (a : Act) (h1 : Inv1 q) (
     · exact ⟨⟨hh, hf⟩, by simp, by simp⟩
     · rename_i c hc
       split
+      · exact ⟨⟨by simp, hf⟩, by simpa using hh c hc, by simp⟩
       · split
-        · exact ⟨⟨by simp, hf⟩, by simpa using hh c hc, by simp⟩
         · exact ⟨⟨by simp, by simp⟩, by simp, by simpa using hh c hc⟩
-      · exact ⟨⟨by simp, hf⟩, by simp, by simp⟩
+        · exact ⟨⟨by simp, hf⟩, by simp, by simp⟩
   · -- disconnect
     by_cases hk : k = Kind.sqliteMemory
     · simp only [if_pos hk] at hg ⊢
@@ -215,5 +215,148 @@ theorem localStep_inv2 (k : Kind) (s : Nat) (q : Proc) (a : Act) (h1 : Inv1 q) (
         simp only [hc] at hg
         simp at hg
         exact ⟨⟨hh, by simp⟩, by simp, by simpa using hf hg c hc⟩
+
+/-! ### world level: membership plumbing, invariants, preservation -/
+
+theorem mem_outsOf {w : World} {p : Nat} {a : Act} {o : Out} :
+    o ∈ outsOf w p a ↔ ∃ q ∈ w.procs, q.pid = p ∧ (localStep w.kind w.nextSerial q a).2 = o := by
+  unfold outsOf
+  simp only [List.mem_filterMap]
+  constructor
+  · rintro ⟨q, hq, h⟩
+    by_cases hp : q.pid = p
+    · simp [hp] at h; exact ⟨q, hq, hp, h⟩
+    · simp [hp] at h
+  · rintro ⟨q, hq, hp, h⟩
+    exact ⟨q, hq, by simp [hp, h]⟩
+
+theorem mem_step_act {w : World} {p : Nat} {a : Act} {q' : Proc} (h : q' ∈ (step w (.act p a)).procs) :
+    (q' ∈ w.procs ∧ q'.pid ≠ p) ∨ ∃ q ∈ w.procs, q.pid = p ∧ q' = (localStep w.kind w.nextSerial q a).1 := by
+  simp only [step, List.mem_map] at h
+  obtain ⟨q, hq, rfl⟩ := h
+  by_cases hp : q.pid = p
+  · right; exact ⟨q, hq, hp, by simp [hp]⟩
+  · left; simp [hp, hq]
+
+theorem mem_step_fork {w : World} {p : Nat} {q' : Proc} (h : q' ∈ (step w (.fork p)).procs) :
+    q' ∈ w.procs ∨ ∃ q ∈ w.procs, q.pid = p ∧ q' = { q with pid := w.nextPid, fresh := false } := by
+  simp only [step, List.mem_append, List.mem_map, List.mem_filter] at h
+  rcases h with h | ⟨q, ⟨hq, hp⟩, rfl⟩
+  · left; exact h
+  · right; exact ⟨q, hq, by simpa using hp, rfl⟩
+
+def WInv (w : World) : Prop :=
+  (∀ q ∈ w.procs, Inv1 q) ∧ (∀ e ∈ w.returned, e.2.creator = e.1) ∧ w.attrErrors = 0
+
+theorem init_inv (k : Kind) : WInv (init k) := by
+  refine ⟨?_, by simp [init], by simp [init]⟩
+  intro q hq
+  simp [init] at hq
+  subst hq
+  intro c hc
+  cases k <;> simp [initPool] at hc
+
+theorem step_inv (w : World) (e : Ev) (h : WInv w) : WInv (step w e) := by
+  obtain ⟨hp, hr, ha⟩ := h
+  cases e with
+  | act p a =>
+    refine ⟨?_, ?_, ?_⟩
+    · intro q' hq'
+      rcases mem_step_act hq' with ⟨hq, _⟩ | ⟨q, hq, _, rfl⟩
+      · exact hp q' hq
+      · exact localStep_inv1 _ _ _ _ (hp q hq)
+    · intro e he
+      simp only [step, List.mem_append, List.mem_map, List.mem_filterMap] at he
+      rcases he with he | ⟨c, ⟨o, ho, hc⟩, rfl⟩
+      · exact hr e he
+      · obtain ⟨q, hq, hpid, rfl⟩ := mem_outsOf.mp ho
+        simpa [hpid] using localStep_returned _ _ _ _ (hp q hq) c hc
+    · simp only [step]
+      have : (outsOf w p a).filter (·.attrError) = [] := by
+        rw [List.filter_eq_nil_iff]
+        intro o ho
+        obtain ⟨q, hq, _, rfl⟩ := mem_outsOf.mp ho
+        simp [localStep_noattr _ _ _ _ (hp q hq)]
+      simp [this, ha]
+  | fork p =>
+    refine ⟨?_, by simpa [step] using hr, by simpa [step] using ha⟩
+    intro q' hq'
+    rcases mem_step_fork hq' with hq | ⟨q, hq, _, rfl⟩
+    · exact hp q' hq
+    · exact hp q hq
+
+theorem run_inv (evs : List Ev) : ∀ (w : World), WInv w → WInv (run w evs) := by
+  induction evs with
+  | nil => intro w h; exact h
+  | cons e es ih => intro w h; exact ih (step w e) (step_inv w e h)
+
+/-- caller discipline: G1 — no fork while a session holds a checked-out connection (fork points "idle" and "pooled
+    connection"); G2 — a forked child does not call `disconnect` before it has connected itself. -/
+def disciplined (w : World) : Prop := w.forkWhileHeld = false ∧ w.staleDisconnect = false
+
+def WInv2 (w : World) : Prop :=
+  disciplined w → (∀ q ∈ w.procs, Inv2 q) ∧ (∀ e ∈ w.stmts, e.2.creator = e.1) ∧ (∀ e ∈ w.closed, e.2.creator = e.1)
+
+theorem init_inv2 (k : Kind) : WInv2 (init k) := by
+  intro _
+  refine ⟨?_, by simp [init], by simp [init]⟩
+  intro q hq
+  simp [init] at hq
+  subst hq
+  constructor
+  · intro c hc; simp at hc
+  · intro _ c hc; cases k <;> simp [initPool] at hc
+
+theorem step_inv2 (w : World) (e : Ev) (h1 : WInv w) (h2 : WInv2 w) : WInv2 (step w e) := by
+  intro hd
+  cases e with
+  | act p a =>
+    have hd0 : disciplined w ∧ ∀ o ∈ outsOf w p a, o.staleDisconnect = false := by
+      obtain ⟨hf, hs⟩ := hd
+      simp only [step, Bool.or_eq_false_iff, List.any_eq_false] at hf hs
+      exact ⟨⟨hf, hs.1⟩, fun o ho => by simpa using hs.2 o ho⟩
+    obtain ⟨hq2, hs, hc⟩ := h2 hd0.1
+    have key : ∀ q ∈ w.procs, q.pid = p → _ := fun q hq hp =>
+      localStep_inv2 w.kind w.nextSerial q a (h1.1 q hq) (hq2 q hq) (hd0.2 _ (mem_outsOf.mpr ⟨q, hq, hp, rfl⟩))
+    refine ⟨?_, ?_, ?_⟩
+    · intro q' hq'
+      rcases mem_step_act hq' with ⟨hq, _⟩ | ⟨q, hq, hp, rfl⟩
+      · exact hq2 q' hq
+      · exact (key q hq hp).1
+    · intro e he
+      simp only [step, List.mem_append, List.mem_map, List.mem_flatMap] at he
+      rcases he with he | ⟨c, ⟨o, ho, hc'⟩, rfl⟩
+      · exact hs e he
+      · obtain ⟨q, hq, hp, rfl⟩ := mem_outsOf.mp ho
+        simpa [hp] using (key q hq hp).2.1 c hc'
+    · intro e he
+      simp only [step, List.mem_append, List.mem_map, List.mem_flatMap] at he
+      rcases he with he | ⟨c, ⟨o, ho, hc'⟩, rfl⟩
+      · exact hc e he
+      · obtain ⟨q, hq, hp, rfl⟩ := mem_outsOf.mp ho
+        simpa [hp] using (key q hq hp).2.2 c hc'
+  | fork p =>
+    obtain ⟨hf, hs⟩ := hd
+    simp only [step, Bool.or_eq_false_iff, List.any_eq_false] at hf hs
+    obtain ⟨hq2, hst, hc⟩ := h2 ⟨hf.1, hs⟩
+    refine ⟨?_, by simpa [step] using hst, by simpa [step] using hc⟩
+    intro q' hq'
+    rcases mem_step_fork hq' with hq | ⟨q, hq, hp, rfl⟩
+    · exact hq2 q' hq
+    · have hk : ({ q with pid := w.nextPid, fresh := false } : Proc).held.isSome = false := by
+        have := hf.2 { q with pid := w.nextPid, fresh := false }
+          (by simp only [List.mem_map, List.mem_filter]; exact ⟨q, ⟨hq, by simp [hp]⟩, rfl⟩)
+        simpa using this
+      constructor
+      · intro c hc'
+        simp only at hk hc'
+        rw [hc'] at hk
+        simp at hk
+      · intro hfr; simp at hfr
+
+theorem run_inv2 (evs : List Ev) : ∀ (w : World), WInv w → WInv2 w → WInv2 (run w evs) := by
+  induction evs with
+  | nil => intro w _ h; exact h
+  | cons e es ih => intro w h1 h2; exact ih (step w e) (step_inv w e h1) (step_inv2 w e h1 h2)
 
 end PonyVerif.Model.ForkPool
